@@ -16,10 +16,10 @@ BASE = ('c', ('-Q0',))
 def plan(tier):
     """[(config, family filter or None)]"""
     P = []
-    small = ['F2', 'F4', 'F5', 'F6', 'F7', 'F7M', 'F8', 'F9', 'F10']
+    small = ['F2', 'F4', 'F5', 'F6', 'F6M', 'F7', 'F7M', 'F8', 'F9', 'F10']
     bait = ['F5', 'F7', 'F7M', 'F10']
     if tier == 'quick':
-        core = ['F2', 'F5', 'F7', 'F7M', 'F8', 'F9', 'F10']
+        core = ['F2', 'F5', 'F6M', 'F7', 'F7M', 'F8', 'F9', 'F10']
         for q in (0, 1, 2, 3, 5, 9):
             P.append((('interp', ('-Q%d' % q,)), small))
         for q in (1, 2, 9):
